@@ -460,7 +460,7 @@ Fixpoint seek_leaves (h : nat) (t : tree) (k : key) : list leaf :=
       end
   end.
 
-Inductive pres := PFound (l : leaf) | PNone (at_id : Z) | PUp | PErr.
+Inductive pres := PFound (l : leaf) | PNone | PUp | PErr.
 Fixpoint find_prev (h : nat) (t : tree) (nav : key) (cur : Z) : pres :=
   match t with
   | Leaf l => if lid l =? cur then PUp else PErr
@@ -473,19 +473,14 @@ Fixpoint find_prev (h : nat) (t : tree) (nav : key) (cur : Z) : pres :=
           | PUp => match i with
                    | O => PUp
                    | S j => let l' := last_leaf (child_at kids r j) in
-                            if lempty l' then PNone (lid l') else PFound l'
+                            if lempty l' then PNone else PFound l'
                    end
           | x => x
           end
       end
   end.
 (* cursor_last + prev...: (entries, status) ; status 0 = ended by exhaustion, 1 = stopped at an empty
-   previous leaf (4 + its page number), 2 = navigation error, 3 = out of fuel *)
-Fixpoint before_id (i : Z) (ls : list leaf) : list leaf :=
-  match ls with
-  | [] => []
-  | l :: r => if lid l =? i then [] else l :: before_id i r
-  end.
+   previous leaf, 2 = navigation error, 3 = out of fuel *)
 Fixpoint bwd_walk (fuel h : nat) (root : tree) (l : leaf) : list entry * Z :=
   let here := rev (lcells l) in
   match fuel with
@@ -496,7 +491,7 @@ Fixpoint bwd_walk (fuel h : nat) (root : tree) (l : leaf) : list entry * Z :=
       | Some nav =>
           match find_prev h root nav (lid l) with
           | PFound l' => let '(es, st) := bwd_walk f h root l' in (here ++ es, st)
-          | PNone i => (here, 4 + Z.max 0 i)
+          | PNone => (here, 1)
           | PUp => (here, 0)
           | PErr => (here, 2)
           end
@@ -623,8 +618,8 @@ Definition step (s : state) (o : op) : state * out * Z :=
       else
         let '(es, st) := bwd_walk (length (leaves h (root s))) h (root s) l in
         (s, (if st =? 2 then RErr else RList (firstn lim es)),
-         if st =? 0 then 0 else if 4 <=? st then
-           (if nonempty_left (before_id (st - 4) (leaves h (root s))) then F_BWD else 0)
+         if st =? 0 then 0 else if st =? 1 then
+           (if (length es <? length (abs h (root s)))%nat then F_BWD else 0)   (* stopped early with entries left *)
          else if st =? 2 then F_PANIC else F_FUEL)
   | OReopen hh => (mkState (root s) (npages s) hh, RUnit, 0)
   end.
@@ -634,6 +629,10 @@ Fixpoint run (s : state) (ops : list op) : list (out * Z) * state :=
   | [] => ([], s)
   | o :: r => let '(s', ot, f) := step s o in let '(res, sf) := run s' r in ((ot, f) :: res, sf)
   end.
+
+(* no defect class was reached *)
+Definition all_clear (res : list (out * Z)) : bool := forallb (fun p : out * Z => snd p =? 0) res.
+Definition abs_of (s : state) : list entry := abs (depth (root s)) (root s).
 
 Definition init_state (rootpg np : Z) : state := mkState (Leaf (mkLeaf rootpg [] PAGE 0)) np None.
 
